@@ -117,6 +117,9 @@ func checkC15(c *Ctx) {
 	lbOvfMode = false
 	c.Notes = append(c.Notes, fmt.Sprintf("B-IDX: %d sites, %d compiler, %d LinBounds, %d unproven", st.sites, st.compiler, st.lin, st.unproved))
 	c15PeerIndexed(c, scope, parsers)
+	c15WarnLoop(c)
+	c15NoDrop(c)
+	c08ClientAuth(c) // an omitted or empty client Certificate message under a requiring policy aborts
 	c06Suite(c) // "unsupported versions, suites": a suite or version the endpoint did not offer is refused
 	c15MsgType(c, scope)
 	before := len(c.Obls)
@@ -705,4 +708,136 @@ func c15PeerIndexed(c *Ctx, scope []*ssa.Function, done []*ssa.Function) {
 	st := bidx(c, "B-IDX", fs, map[string]string{})
 	lbOvfMode = false
 	c.Notes = append(c.Notes, fmt.Sprintf("B-IDX (bounds computed from received message fields, rest of the closure): %d sites, %d compiler, %d LinBounds, %d unproven", st.sites, st.compiler, st.lin, st.unproved))
+}
+
+// c15WarnLoop: readRecord starts over (without returning to its caller) only for a warning alert, and only while a
+// counter that is incremented on that path has not exceeded a constant: a peer cannot keep an endpoint spinning
+// inside readRecord with an endless stream of warning alerts.
+func c15WarnLoop(c *Ctx) {
+	rule := "G-C15-warnloop"
+	f := c.Fn("gmtls", "(*Conn).readRecord")
+	if f == nil {
+		c.Missing(rule, "gmtls.(*Conn).readRecord", "method", "not found")
+		return
+	}
+	hs := loopHeaders(f)
+	c.Evals++
+	if len(hs) == 0 {
+		c.Holds(rule, fname(f), "every restart inside readRecord is bounded by a counter", "readRecord has no loop", f.Pos())
+		return
+	}
+	allOK := true
+	why := ""
+	for _, h := range hs {
+		blocks := loopBlocks(h)
+		for _, p := range h.Preds {
+			if !blocks[p] {
+				continue
+			}
+			// the back edge p -> h must be dominated by the not-exceeded edge of a test on a counter field that is
+			// incremented inside the loop
+			ok := false
+			for b := range blocks {
+				ifi, isIf := lastIf(b)
+				if !isIf {
+					continue
+				}
+				bo, isBo := ifi.Cond.(*ssa.BinOp)
+				if !isBo || (bo.Op != token.GTR && bo.Op != token.GEQ) {
+					continue
+				}
+				if _, isK := constInt(bo.Y); !isK {
+					continue
+				}
+				// counter: a value v with `field = v` stored in the loop and v = load(field) + 1, or a later load of it
+				var fld *ssa.FieldAddr
+				isCounter := func(v ssa.Value) bool {
+					add, ok := v.(*ssa.BinOp)
+					if ok && add.Op == token.ADD {
+						if k, isK := constInt(add.Y); isK && k == 1 {
+							if ld, ok := add.X.(*ssa.UnOp); ok {
+								if fa, ok := ld.X.(*ssa.FieldAddr); ok {
+									fld = fa
+									return true
+								}
+							}
+						}
+					}
+					return false
+				}
+				v := bo.X
+				if ld, isLd := v.(*ssa.UnOp); isLd && ld.Op == token.MUL {
+					// a reload of the field: find the increment stored to the same field in the loop
+					if fa, ok := ld.X.(*ssa.FieldAddr); ok {
+						for bb := range blocks {
+							for _, in := range bb.Instrs {
+								if st, ok := in.(*ssa.Store); ok {
+									if fa2, ok := st.Addr.(*ssa.FieldAddr); ok && fa2.Field == fa.Field && fa2.X == fa.X && isCounter(st.Val) && instrDominates(st, ld) {
+										v = st.Val
+									}
+								}
+							}
+						}
+					}
+				}
+				if !isCounter(v) {
+					continue
+				}
+				stored := false
+				for bb := range blocks {
+					for _, in := range bb.Instrs {
+						if st, ok := in.(*ssa.Store); ok && st.Val == v {
+							if fa2, ok := st.Addr.(*ssa.FieldAddr); ok && fld != nil && fa2.Field == fld.Field && fa2.X == fld.X {
+								stored = true
+							}
+						}
+					}
+				}
+				exceeded, within := b.Succs[0], b.Succs[1]
+				if stored && !blocks[exceeded] && ((within == h && p == b) || (len(within.Preds) == 1 && (within == p || within.Dominates(p)))) {
+					ok = true
+				}
+			}
+			if !ok {
+				allOK = false
+				why = "the jump back to the start of readRecord from " + c.P.pos(lastPos(p)) + " is not guarded by a bounded counter"
+			}
+		}
+	}
+	c.Check(allOK, rule, fname(f), "every restart inside readRecord is bounded by a counter", "", why+": a peer can keep the endpoint inside readRecord for ever with records that are silently dropped", f.Pos())
+}
+
+// c15NoDrop: readHandshake returns every message it takes off the handshake buffer: the consumption
+// (hand.Next) is not inside a loop, so no message can be read, silently discarded and replaced by the next one
+// (a discarded message would be missing from the transcript, and an unexpected message would go unnoticed).
+func c15NoDrop(c *Ctx) {
+	rule := "G-C15-nodrop"
+	f := c.Fn("gmtls", "(*Conn).readHandshake")
+	if f == nil {
+		c.Missing(rule, "gmtls.(*Conn).readHandshake", "method", "not found")
+		return
+	}
+	n := 0
+	for _, ci := range allCalls(f) {
+		call, ok := ci.(*ssa.Call)
+		if !ok {
+			continue
+		}
+		sc := call.Call.StaticCallee()
+		if sc == nil || sc.String() != "(*bytes.Buffer).Next" {
+			continue
+		}
+		n++
+		c.Evals++
+		inLoop := false
+		for _, s := range call.Block().Succs {
+			if reach([]*ssa.BasicBlock{s}, nil)[call.Block()] {
+				inLoop = true
+			}
+		}
+		c.Check(!inLoop, rule, fname(f), fmt.Sprintf("message consumption #%d is followed by a return, not by another read", n), "", "after taking a message off the handshake buffer readHandshake can loop and read another one: the first message is dropped without reaching the handshake state machine or the transcript", call.Pos())
+	}
+	if n == 0 {
+		c.Undecided(rule, fname(f), "consumption of the handshake buffer", "no call to hand.Next found", f.Pos())
+	}
 }
